@@ -6,13 +6,23 @@
    Events (one per observable step of the harness):
      Reject{spec}                       FromString returned an error        -> ParseSpec must reject
      Panic{spec}                        FromString panicked                 -> only as a named deviation
-     Input{spec, L, kind, min, max}     FromString accepted; kind/min/max = what the built splitter
+     Input{spec, L, kind, min, max, drop}  FromString accepted; kind/min/max = what the built splitter
                                         really uses (in-package inspection); a new input of L bytes
-     Run{}                              a fresh splitter over the same input, another fragmentation
+     Run{drop}                          a fresh splitter over the same input, another fragmentation
      Emit{n, rpos, eq}                  NextBytes returned n bytes equal (eq) to the next input range,
                                         the reader had handed out rpos bytes by then
      End{rpos}                          NextBytes returned io.EOF (logged twice: it is called again)
+     Check{n, bytes}                    the harness KEEPS every chunk it was given (all runs, all inputs, all
+                                        kinds of splitter of the session; `drop` on Input/Run = it let go of all
+                                        of them before building the next instance) and re-compares all of them
+                                        with the input ranges they were cut from after every run (and after
+                                        every NextBytes of concurrently live instances); n / bytes = the kept
+                                        chunks that were equal at EVERY comparison so far -> must be all of them
    All runs of one Input must cut at identical offsets (cuts is fixed by the first run).
+   Runs of concurrently live splitter instances (NextBytes calls interleaved at random) are logged
+   projected per instance: the specification of several instances is the product of independent
+   copies of this machine (no shared state), so a joint behaviour is legal iff every projection is;
+   the retained chunks of all of them are one session.
    Call / ReadMany are silent steps determined by the next event.                              *)
 EXTENDS Chunker
 
@@ -29,13 +39,13 @@ Ev == Trace[l]
 IsEvent(e) == l <= Len(Trace) /\ Trace[l].ev = e /\ l' = l + 1
 Pending(es) == l <= Len(Trace) /\ Trace[l].ev \in es
 NoCuts == [set |-> FALSE, s |-> <<>>]
-RunReset == /\ rpos' = 0 /\ buf' = 0 /\ emitted' = <<>> /\ zeros' = 0 /\ reof' = FALSE
-            /\ eofNow' = FALSE /\ serr' = FALSE /\ pc' = "idle" /\ ends' = 0
+RunReset == Retain(Ev.drop) /\ FreshRun     \* the finished instance's chunks stay with the consumer
 
 TInit == /\ l = 1 /\ cuts = NoCuts /\ devrun = FALSE /\ dev = {}
          /\ cfg = [kind |-> "any", lo |-> 1, hi |-> 1] /\ L = 0
          /\ rpos = 0 /\ buf = 0 /\ emitted = <<>> /\ zeros = 0 /\ reof = FALSE
          /\ eofNow = FALSE /\ serr = FALSE /\ pc = "idle" /\ ends = 0
+         /\ heldN = 0 /\ heldB = 0 /\ sessL = 0
 
 (* ---- parser verdicts ---------------------------------------------------------------- *)
 TReject == /\ IsEvent("Reject") /\ ~ParseSpec(Ev.spec, Limit).ok
@@ -67,6 +77,10 @@ TEnd == /\ IsEvent("End") /\ Ev.rpos = rpos
         /\ cuts' = [set |-> TRUE, s |-> emitted]
         /\ UNCHANGED <<devrun, dev>>
 
+\* the consumer re-read everything it holds: all of it must still be what was cut from the inputs
+TCheck == /\ IsEvent("Check") /\ Recheck(Ev.n, Ev.bytes)
+          /\ UNCHANGED <<cuts, devrun, dev>>
+
 (* ---- named deviations (open findings) ---------------------------------------------------
    Dev_C06_RabinSmallAvg: "rabin-A" with A/3 < 16 is accepted; the splitter then never cuts:
    the whole input comes back as ONE chunk, whatever its size.
@@ -85,7 +99,7 @@ TEmitDev ==
     /\ devrun /\ IsEvent("Emit") /\ pc = "reading"
     /\ emitted = <<>> /\ Ev.n = L /\ Ev.rpos = L /\ Ev.eq /\ L > 0
     /\ emitted' = <<L>> /\ rpos' = L /\ buf' = 0 /\ pc' = "idle"
-    /\ UNCHANGED <<cfg, L, zeros, reof, eofNow, serr, ends, cuts, devrun, dev>>
+    /\ UNCHANGED <<cfg, L, zeros, reof, eofNow, serr, ends, sess, cuts, devrun, dev>>
 TPanicDev ==
     /\ "Dev_C06_RabinHugeAvg" \in Devs
     /\ IsEvent("Panic")
@@ -93,7 +107,7 @@ TPanicDev ==
     /\ dev' = dev \cup {"Dev_C06_RabinHugeAvg"}
     /\ UNCHANGED <<vars, cuts, devrun>>
 
-TNext == TReject \/ TInput \/ TRun \/ TCall \/ TReadMany \/ TEmit \/ TEnd
+TNext == TReject \/ TInput \/ TRun \/ TCall \/ TReadMany \/ TEmit \/ TEnd \/ TCheck
          \/ TInputDev \/ TEmitDev \/ TPanicDev
 TSpec == TInit /\ [][TNext]_tvars
 
